@@ -75,6 +75,14 @@ CHECKS = {
              text='Exploration: model-first generated schemas covering 210 construct kinds (one construct under test per declaration) and the shipped schemas are pretty-printed at 5 line widths x 3 flag '
                   'settings; the output must be accepted, equivalent to its source up to redundant parentheses and split string literals, and stable under re-printing.',
              ref='DESIGN.md section 2 C07'),
+ 'C02': dict(tech='reference-model monitor: run-time dictionary dump (regdump harness over Registry iterators), fresh-instance attribute lists and generated accessor round trips vs. the schema model, under ASan+UBSan; compile status observed per schema',
+             text='Exploration: seeded generated schemas (+ naming/inheritance/type-zoo extras) are compiled by exp2cxx and g++; entity and type sets, per-entity ordered lists, flags, domain types, '
+                  'enumeration items, select members, aggregate bounds, Part 21 attribute order of fresh instances and mutator/accessor round trips must equal the model.',
+             ref='DESIGN.md section 2 C02'),
+ 'C11': dict(tech='reference-model monitor: inverse-attribute slots read after lazyInstMgr::loadInstance (by the declared kind, as generated accessors do) vs. the referrer sets computed from the generated population; UBSan vptr catches slot type confusion',
+             text='Exploration: generated schemas around INVERSE (own/inherited over 1-2 levels, several inverses per target, aggregate and single inverted attributes, referrer subtypes) x populations x '
+                  'load orders; every inverse attribute of every loaded instance must hold exactly the referrers, each once.',
+             ref='DESIGN.md section 2 C11'),
  'C01': dict(tech='reference-model monitor over recorded executions (independent Part 21 parser vs. files written by the real library) under ASan+UBSan',
              text='Exploration: seeded generated schemas x conforming populations x text variants are read and written by the real p21read/STEPfile '
                   'built with ASan+UBSan from the current tree; an independent Part 21 parser compares the written population value by value with the '
